@@ -114,4 +114,184 @@ theorem decode_csi_mods_clamp (u : Uni) (p0 : List Int) (m : Int) (es : List Int
 
 example : (decodeKey asciiUni (.csi [[97], [-5]] 117)).mods = 0 := (decode_csi_mods_clamp asciiUni [97] (-5) [] [] 117).2 (by decide)
 
+/-! ## (A) The same chord under the legacy and the kitty encoding — character keys of any script
+
+`c` is the key (its un-shifted character), `C` the character Shift produces on it.  The `unicode`
+functions are an arbitrary oracle `u`; every hypothesis on it is written out (and evaluated at run
+time on Go's real tables by the `hyp` ops of the C09 harness). -/
+
+theorem validRune_inRune {c : Int} (hv : validRune c = true) : inRune c := by
+  simp only [validRune, Bool.and_eq_true, decide_eq_true_eq] at hv
+  have hmr : maxRune = 1114111 := rfl
+  exact ⟨hv.1.1, by have := hv.1.2; omega⟩
+
+/-- `sameForMatching_sound` for every `unicode` oracle: two events that agree on all fields, or differ
+    only in that the first carries the (unmodified) key's own character as text and the second none —
+    provided no lower-case rune upper-cases to that character — have the same `String()` and match the
+    same bindings. -/
+theorem cross_protocol_same_for_matching (u : Uni) (k1 k2 : Key)
+    (hk : k1.keycode = k2.keycode) (hs : k1.shifted = k2.shifted) (hb : k1.base = k2.base)
+    (hm : k1.mods = k2.mods) (he : k1.event = k2.event)
+    (ht : k1.text = k2.text ∨ OwnCharText u k1 k2) :
+    keyString u k1 = keyString u k2 ∧ ∀ b m, «matches» u k1 b m = «matches» u k2 b m :=
+  sameForMatching_sound_uni u k1 k2 hk hs hb hm he ht
+
+/-- The ASCII criterion used by `cross_protocol`'s table is an instance of the general one. -/
+theorem cross_protocol_ascii_is_instance (k1 k2 : Key) (h : sameForMatching k1 k2 = true) :
+    keyString asciiUni k1 = keyString asciiUni k2 ∧ ∀ b m, «matches» asciiUni k1 b m = «matches» asciiUni k2 b m := by
+  obtain ⟨hk, hs, hb, hm, he, ht⟩ := sameForMatching_is_instance k1 k2 h
+  exact sameForMatching_sound_uni asciiUni k1 k2 hk hs hb hm he ht
+
+/-- **cross_protocol_char_plain.** The unmodified character key `c` of any script: the legacy report
+    (the character itself, `Print [c]`) and every kitty report `CSI c [;1[:1][;c]] u` (bare / with the
+    modifier field / with the event type / with or without the text) decode to events with the same
+    `String()` that match exactly the same bindings, for all binding runes and masks.
+    The two textless-form hypotheses are needed: see `Witness/F209.lean` for 'ß'. -/
+theorem cross_protocol_char_plain (u : Uni) (c : Int) (f : Form)
+    (hv : validRune c = true) (hdel : c ≠ 127) (hup : u.isUpper c = false)
+    (hfun : lookup2 (c, 117) functional = none)
+    (hf : f.withShifted = false ∧ f.withBase = false)
+    (hfffd : f.withText = false → c ≠ 0xFFFD)
+    (hnolow : f.withText = false → ∀ r, u.isLower r = true → u.toUpper r ≠ c) :
+    let kL := decodeKey u (.print [c])
+    let kK := decodeKey u (kittySeq c 117 { key := c, text := [c] } f)
+    keyString u kL = keyString u kK ∧ ∀ b m, «matches» u kL b m = «matches» u kK b m := by
+  intro kL kK
+  have hL : kL = { keycode := c, text := [c] } := by
+    show decodeKey u (.print [c]) = _
+    rw [VaxisModel.Props.C09.decode_exact_print u [c] (by simp) (by simp [hup])]
+    simp [printExpected, hup, hdel]
+  have i0 : inRune 0 := ⟨by decide, by decide⟩
+  have hK : kK = { keycode := c, text := if f.withText then [c] else [] } := by
+    show decodeKey u (kittySeq c 117 { key := c, text := [c] } f) = _
+    rw [VaxisModel.Props.C09.decode_exact_csi u c 117 _ f (validRune_inRune hv) i0 i0
+      (by intro p hp; simp only [List.mem_singleton] at hp; subst hp; exact ⟨validRune_inRune hv, hv⟩)
+      (Or.inr ⟨hfun, rfl⟩) (by omega) (by omega)]
+    obtain ⟨ws, wb, wm, we, wt⟩ := f
+    simp only at hf
+    obtain ⟨rfl, rfl⟩ := hf
+    have hs : stripLocks 0 ≠ shiftBit := by decide
+    cases wm <;> cases we <;> cases wt <;> simp [kittyExpected, shiftFix, Form.hasMods, hs]
+  rw [hL, hK]
+  apply sameForMatching_sound_uni <;> try rfl
+  cases hwt : f.withText
+  · right
+    exact ⟨rfl, rfl, by simp, hv, hfffd hwt, hnolow hwt⟩
+  · left; simp
+
+example : validRune 233 = true ∧ latinUni.isUpper 233 = false ∧ lookup2 (233, 117) functional = none ∧
+    (∀ r, latinUni.isLower r = true → latinUni.toUpper r ≠ 233) := by
+  refine ⟨by decide, by decide, by decide +kernel, ?_⟩
+  intro r hl
+  simp only [latinUni, asciiUni, Bool.or_eq_true, decide_eq_true_eq] at hl ⊢
+  split
+  · omega
+  · split <;> omega
+
+example : validRune 97 = true ∧ asciiUni.isUpper 97 = false ∧ lookup2 (97, 117) functional = none ∧
+    (∀ r, asciiUni.isLower r = true → asciiUni.toUpper r ≠ 97) := by
+  refine ⟨by decide, by decide, by decide +kernel, ?_⟩
+  intro r hl
+  simp only [asciiUni, decide_eq_true_eq] at hl ⊢
+  split <;> omega
+
+/-- **cross_protocol_char_shift.** Shift + the cased letter key `c` (`C` its upper case): legacy
+    `Print [C]` and every kitty report `CSI c:C ; 2[:1] [; C] u` (the shifted code and the modifier field
+    present; event type and text optional).  Without the text field the decoder's Shift-text
+    work-around must supply it: that needs `IsPrint c` and `ToUpper c = C`. -/
+theorem cross_protocol_char_shift (u : Uni) (c C : Int) (f : Form)
+    (hv : validRune c = true) (hV : validRune C = true) (hdel : c ≠ 127)
+    (hup : u.isUpper C = true) (hlow : u.toLower C = c)
+    (hfun : lookup2 (c, 117) functional = none)
+    (hf : f.withShifted = true ∧ f.withBase = false ∧ f.hasMods = true)
+    (hprint : f.withText = false → u.isPrint c = true)
+    (htoup : f.withText = false → u.toUpper c = C) :
+    let kL := decodeKey u (.print [C])
+    let kK := decodeKey u (kittySeq c 117 { key := c, mods := shiftBit, shifted := C, text := [C] } f)
+    keyString u kL = keyString u kK ∧ ∀ b m, «matches» u kL b m = «matches» u kK b m := by
+  intro kL kK
+  have hL : kL = { keycode := c, shifted := C, mods := shiftBit, text := [C] } := by
+    show decodeKey u (.print [C]) = _
+    rw [VaxisModel.Props.C09.decode_exact_print u [C] (by simp) (by simp [hlow, hdel])]
+    simp [printExpected, hup, hlow]
+  have i0 : inRune 0 := ⟨by decide, by decide⟩
+  have hK : kK = { keycode := c, shifted := C, mods := shiftBit, text := [C] } := by
+    show decodeKey u (kittySeq c 117 { key := c, mods := shiftBit, shifted := C, text := [C] } f) = _
+    rw [VaxisModel.Props.C09.decode_exact_csi u c 117 _ f (validRune_inRune hv) (validRune_inRune hV) i0
+      (by intro p hp; simp only [List.mem_singleton] at hp; subst hp; exact ⟨validRune_inRune hV, hV⟩)
+      (Or.inr ⟨hfun, rfl⟩) (by omega) (by omega)]
+    obtain ⟨ws, wb, wm, we, wt⟩ := f
+    simp only [Form.hasMods] at hf hprint htoup
+    obtain ⟨rfl, rfl, hmods⟩ := hf
+    have hs : stripLocks shiftBit = shiftBit := by decide
+    have hstr : strOfRune C = [C] := by simp [strOfRune, hV]
+    cases wt
+    · have hp := hprint rfl
+      have ht := htoup rfl
+      cases wm <;> cases we <;> simp_all [kittyExpected, shiftFix, Form.hasMods]
+    · cases wm <;> cases we <;> simp_all [kittyExpected, shiftFix, Form.hasMods]
+  rw [hL, hK]
+  exact ⟨rfl, fun _ _ => rfl⟩
+
+example : validRune 233 = true ∧ validRune 201 = true ∧ latinUni.isUpper 201 = true ∧ latinUni.toLower 201 = 233 ∧
+    lookup2 (233, 117) functional = none ∧ latinUni.isPrint 233 = true ∧ latinUni.toUpper 233 = 201 := by
+  refine ⟨by decide, by decide, by decide, by decide, by decide +kernel, by decide, by decide⟩
+
+/-- **cross_protocol_char_alt.** Alt + the character key `c`: legacy `ESC c` and the kitty reports
+    `CSI c ; 3[:1] u` decode to the same event. -/
+theorem cross_protocol_char_alt (u : Uni) (c : Int) (f : Form)
+    (hv : validRune c = true) (hup : u.isUpper c = false)
+    (hfun : lookup2 (c, 117) functional = none)
+    (hf : f.withShifted = false ∧ f.withBase = false ∧ f.hasMods = true ∧ f.withText = false) :
+    let kL := decodeKey u (.esc c)
+    let kK := decodeKey u (kittySeq c 117 { key := c, mods := altBit } f)
+    keyString u kL = keyString u kK ∧ ∀ b m, «matches» u kL b m = «matches» u kK b m := by
+  intro kL kK
+  have hL : kL = { keycode := c, mods := altBit } := by
+    show decodeKey u (.esc c) = _
+    rw [VaxisModel.Props.C09.decode_exact_esc]
+    simp [escExpected, hup]
+  have i0 : inRune 0 := ⟨by decide, by decide⟩
+  have hK : kK = { keycode := c, mods := altBit } := by
+    show decodeKey u (kittySeq c 117 { key := c, mods := altBit } f) = _
+    rw [VaxisModel.Props.C09.decode_exact_csi u c 117 _ f (validRune_inRune hv) i0 i0
+      (by simp) (Or.inr ⟨hfun, rfl⟩) (by omega) (by omega)]
+    obtain ⟨ws, wb, wm, we, wt⟩ := f
+    simp only [Form.hasMods] at hf
+    obtain ⟨rfl, rfl, hmods, rfl⟩ := hf
+    have hs : stripLocks altBit ≠ shiftBit := by decide
+    cases wm <;> cases we <;> simp_all [kittyExpected, shiftFix, Form.hasMods]
+  rw [hL, hK]
+  exact ⟨rfl, fun _ _ => rfl⟩
+
+/-- **cross_protocol_char_alt_shift.** Alt + Shift + the cased letter key `c`: legacy `ESC C` and the
+    kitty reports `CSI c:C ; 4[:1] u` decode to the same event. -/
+theorem cross_protocol_char_alt_shift (u : Uni) (c C : Int) (f : Form)
+    (hv : validRune c = true) (hV : validRune C = true)
+    (hup : u.isUpper C = true) (hlow : u.toLower C = c)
+    (hfun : lookup2 (c, 117) functional = none)
+    (hf : f.withShifted = true ∧ f.withBase = false ∧ f.hasMods = true ∧ f.withText = false) :
+    let kL := decodeKey u (.esc C)
+    let kK := decodeKey u (kittySeq c 117 { key := c, mods := altBit ||| shiftBit, shifted := C } f)
+    keyString u kL = keyString u kK ∧ ∀ b m, «matches» u kL b m = «matches» u kK b m := by
+  intro kL kK
+  have hL : kL = { keycode := c, shifted := C, mods := altBit ||| shiftBit } := by
+    show decodeKey u (.esc C) = _
+    rw [VaxisModel.Props.C09.decode_exact_esc]
+    simp [escExpected, hup, hlow]
+  have i0 : inRune 0 := ⟨by decide, by decide⟩
+  have hK : kK = { keycode := c, shifted := C, mods := altBit ||| shiftBit } := by
+    show decodeKey u (kittySeq c 117 { key := c, mods := altBit ||| shiftBit, shifted := C } f) = _
+    rw [VaxisModel.Props.C09.decode_exact_csi u c 117 _ f (validRune_inRune hv) (validRune_inRune hV) i0
+      (by simp) (Or.inr ⟨hfun, rfl⟩) (by omega) (by omega)]
+    obtain ⟨ws, wb, wm, we, wt⟩ := f
+    simp only [Form.hasMods] at hf
+    obtain ⟨rfl, rfl, hmods, rfl⟩ := hf
+    have hs : stripLocks (altBit ||| shiftBit) ≠ shiftBit := by decide
+    cases wm <;> cases we <;> simp_all [kittyExpected, shiftFix, Form.hasMods]
+  rw [hL, hK]
+  exact ⟨rfl, fun _ _ => rfl⟩
+
+example : (({ withShifted := true, withMods := true, withEvent := true } : Form).hasMods = true) := by decide
+
 end VaxisModel.Props.C09Uni
